@@ -5,6 +5,7 @@ import (
 	"errors"
 	"fmt"
 	"os"
+	"path/filepath"
 	"sort"
 	"strconv"
 	"strings"
@@ -25,6 +26,8 @@ import (
 	"github.com/prometheus/prometheus/storage/remote"
 	"github.com/prometheus/prometheus/tsdb/chunks"
 	"github.com/prometheus/prometheus/tsdb/record"
+	"github.com/prometheus/prometheus/tsdb/wlog"
+	"github.com/prometheus/prometheus/util/compression"
 
 	"verif/harness/internal/gallina"
 	"verif/harness/internal/gen"
@@ -274,6 +277,12 @@ type concDesc struct {
 	DecodeErr string   `json:"decode_error,omitempty"`
 }
 
+func must(err error) {
+	if err != nil {
+		panic(err)
+	}
+}
+
 func counterValue(c prometheus.Metric) int64 {
 	var m dto.Metric
 	if err := c.Write(&m); err != nil {
@@ -325,6 +334,12 @@ func runConc(id int, seed uint64, idx int, outDir string, cf *gallina.CaseFile, 
 	deadline := []time.Duration{400 * time.Millisecond, 2 * time.Second, 5 * time.Second}[r.Intn(3)]
 	hard := r.Chance(1, 12)
 	ageLimit := r.Chance(1, 3)
+	// a quarter of the runs go through a real WAL read by the queue manager's own watcher
+	wal := !hard && r.Chance(1, 4)
+	if wal {
+		ageLimit = false                  // the watcher itself skips samples older than its start
+		deadline = 400 * time.Millisecond // the last partial batch is sent by the timer before Stop
+	}
 	cfg := config.DefaultQueueConfig
 	cfg.MinShards, cfg.MaxShards = n0, 8
 	if n0 > cfg.MaxShards {
@@ -434,6 +449,8 @@ func runConc(id int, seed uint64, idx int, outDir string, cf *gallina.CaseFile, 
 			if len(batch) > 0 {
 				prog = append(prog, action{kind: 'S', series: batch, seg: seg})
 			}
+		case c < 10 && wal:
+			prog = append(prog, action{kind: 'N'}) // segment rotation
 		case c < 10:
 			seg++
 			// a checkpoint: some series are stored again under the new segment, the rest is reset away
@@ -488,7 +505,6 @@ func runConc(id int, seed uint64, idx int, outDir string, cf *gallina.CaseFile, 
 	defer os.RemoveAll(dir)
 
 	qm := remote.VerifNewQueueManager(promslog.NewNopLogger(), dir, cfg, mapLabels(ext), rcfgs, cl, flushDeadline, false, false, false)
-	qm.Start()
 
 	// mirror of the series bookkeeping, to classify each sample
 	type known struct {
@@ -499,6 +515,50 @@ func runConc(id int, seed uint64, idx int, outDir string, cf *gallina.CaseFile, 
 	var fed []string // (ref, class)
 	fedClass := [4]int{}
 	nowMs := time.Now().UnixMilli()
+	tBase := nowMs
+
+	var wl *wlog.WL
+	var enc record.Encoder
+	walNote := ""
+	if wal {
+		// samples must be newer than the watcher's start time to be sent at all
+		tBase = nowMs + 3600_000
+		wl, err = wlog.NewSize(nil, nil, filepath.Join(dir, "wal"), 32*1024, compression.None)
+		if err != nil {
+			panic(err)
+		}
+		defer wl.Close()
+		// before the queue starts: the first series records, samples that must never be sent,
+		// possibly a rotation (segment 0 is then replayed for series only) and a checkpoint
+		a := prog[0]
+		prog = prog[1:]
+		var rs []record.RefSeries
+		var pre []record.RefSample
+		for j, i := range a.series {
+			rs = append(rs, record.RefSeries{Ref: chunks.HeadSeriesRef(specs[i].ref), Labels: specs[i].lset})
+			tab[i] = known{seg: 0, kept: keptBy(rules, ext, specs[i].raw)}
+			pre = append(pre, record.RefSample{Ref: chunks.HeadSeriesRef(specs[i].ref), T: 1000 + int64(j), V: float64(-1 - j)})
+		}
+		must(wl.Log(enc.Series(rs, nil)))
+		if len(pre) > 0 {
+			must(wl.Log(enc.Samples(pre, nil)))
+		}
+		if r.Chance(1, 2) {
+			_, err := wl.NextSegment()
+			must(err)
+			walNote = "rotated-before-start"
+			if r.Chance(1, 2) {
+				_, err := wlog.Checkpoint(promslog.NewNopLogger(), wl, 0, 0, func(chunks.HeadSeriesRef) bool { return true }, 0, false)
+				must(err)
+				must(wl.Truncate(1))
+				walNote = "checkpoint-before-start"
+			}
+			if r.Chance(1, 2) { // old samples in the segment that is tailed from the start
+				must(wl.Log(enc.Samples(pre, nil)))
+			}
+		}
+	}
+	qm.Start()
 
 	var feederDone atomic.Bool
 	var progress atomic.Int64
@@ -535,7 +595,16 @@ func runConc(id int, seed uint64, idx int, outDir string, cf *gallina.CaseFile, 
 					rs = append(rs, record.RefSeries{Ref: chunks.HeadSeriesRef(specs[i].ref), Labels: specs[i].lset})
 					tab[i] = known{seg: a.seg, kept: keptBy(rules, ext, specs[i].raw)}
 				}
-				qm.StoreSeries(rs, a.seg)
+				if wal {
+					must(wl.Log(enc.Series(rs, nil)))
+					qm.VerifNotify()
+				} else {
+					qm.StoreSeries(rs, a.seg)
+				}
+			case 'N':
+				_, err := wl.NextSegment()
+				must(err)
+				qm.VerifNotify()
 			case 'R':
 				qm.SeriesReset(a.seg)
 				for i, k := range tab {
@@ -551,7 +620,7 @@ func runConc(id int, seed uint64, idx int, outDir string, cf *gallina.CaseFile, 
 					if sp.series >= 0 {
 						ref = specs[sp.series].ref
 					}
-					t := nowMs + sid
+					t := tBase + sid
 					class := 3
 					if k, ok := tab[sp.series]; ok && sp.series >= 0 {
 						if k.kept {
@@ -568,7 +637,10 @@ func runConc(id int, seed uint64, idx int, outDir string, cf *gallina.CaseFile, 
 					fedClass[class]++
 					ss = append(ss, record.RefSample{Ref: chunks.HeadSeriesRef(ref), T: t, V: float64(sid)})
 				}
-				if !qm.Append(ss) {
+				if wal {
+					must(wl.Log(enc.Samples(ss, nil)))
+					qm.VerifNotify()
+				} else if !qm.Append(ss) {
 					appendOK = false
 				}
 				progress.Add(int64(len(ss)))
@@ -590,12 +662,44 @@ func runConc(id int, seed uint64, idx int, outDir string, cf *gallina.CaseFile, 
 		wg.Wait()
 	}
 
+	walTimeout := false
+	if wal && !hung {
+		// wait until the watcher has handed everything to the queue and the queue has sent it
+		_, _, _, _, dv := qm.VerifCounters()
+		_, rd, ru := remote.VerifDropReasons()
+		deadlineAt := time.Now().Add(180 * time.Second)
+		for {
+			cl.mu.Lock()
+			seen := map[int64]bool{}
+			for _, q := range cl.reqs {
+				if q.outcome != 1 {
+					for _, it := range q.items {
+						seen[it.id] = true
+					}
+				}
+			}
+			cl.mu.Unlock()
+			handled := int64(len(seen)) + counterValue(dv.WithLabelValues(rd)) + counterValue(dv.WithLabelValues(ru))
+			if handled >= int64(len(fed)) {
+				break
+			}
+			if time.Now().After(deadlineAt) {
+				walTimeout = true
+				meta.GoViol = append(meta.GoViol, gallina.GoViolation{ID: strconv.Itoa(id), Shape: "wal-feed-timeout",
+					What: fmt.Sprintf("only %d of %d samples written to the WAL were sent or counted as dropped within 180 s", handled, len(fed))})
+				break
+			}
+			qm.VerifNotify()
+			time.Sleep(5 * time.Millisecond)
+		}
+	}
+
 	stopped := make(chan struct{})
 	go func() { qm.Stop(); close(stopped) }()
 	settled := false
 	select {
 	case <-stopped:
-		settled = true
+		settled = !walTimeout
 	case <-time.After(300 * time.Second):
 		meta.GoViol = append(meta.GoViol, gallina.GoViolation{ID: strconv.Itoa(id), Shape: "stop-hang", What: "QueueManager.Stop did not return within 300 s"})
 	}
@@ -669,6 +773,14 @@ func runConc(id int, seed uint64, idx int, outDir string, cf *gallina.CaseFile, 
 		meta.Nontrivial++
 	}
 	meta.Hit("conc")
+	mode := "direct"
+	if wal {
+		mode = "wal"
+		meta.Hit("conc:wal")
+		if walNote != "" {
+			meta.Hit("conc:wal:" + walNote)
+		}
+	}
 	meta.Hit(fmt.Sprintf("conc:reshards=%d", min(len(reshards), 3)))
 	if byOutcome[1] > 0 {
 		meta.Hit("conc:recoverable")
@@ -694,7 +806,7 @@ func runConc(id int, seed uint64, idx int, outDir string, cf *gallina.CaseFile, 
 	if capa < bsz {
 		meta.Hit("conc:capacity-below-batch")
 	}
-	meta.Case(id, concDesc{Kind: "conc", Shape: shape, Idx: idx, Mode: "direct", Shards: n0, Bsz: bsz, Cap: capa,
+	meta.Case(id, concDesc{Kind: "conc", Shape: shape, Idx: idx, Mode: mode, Shards: n0, Bsz: bsz, Cap: capa,
 		Deadline: deadline.String(), Rules: rules, Ext: extStr, Series: len(specs), Samples: len(fed), Reshards: reshards,
 		Requests: len(reqs), Failures: byOutcome, Hard: hard, AgeLimit: ageLimit, Settled: settled, Counters: cnt, DecodeErr: decodeErr})
 }
